@@ -4,29 +4,32 @@
 -/
 import Gts.Model.Loc
 import Gts.Model.Pars
+import Gts.Model.Decimal
 namespace Gts
 open Pars
-
-/-- `strconv.Itoa` -/
-def itoa (n : Int) : String := toString n
 
 namespace Loc
 
 mutual
-/-- `Location.String()` -/
-def print : Loc → String
-  | between p => itoa p ++ "^" ++ itoa (p + 1)
-  | point p => itoa (p + 1)
+/-- `Location.String()` as bytes (`strconv.Itoa` / `%d` = `dec`; 1-based inclusive coordinates,
+`<` `>` partial markers, `join(` `order(` `complement(` wrappers, parts joined by `,`) -/
+def printB : Loc → Bytes
+  | between p => dec p ++ 94 :: dec (p + 1)
+  | point p => dec (p + 1)
   | ranged s e p5 p3 =>
-      (if p5 then "<" else "") ++ itoa (s + 1) ++ ".." ++ (if p3 then ">" else "") ++ itoa e
-  | ambiguous s e => itoa (s + 1) ++ "." ++ itoa e
-  | joined ls => "join(" ++ printList ls ++ ")"
-  | ordered ls => "order(" ++ printList ls ++ ")"
-  | compl l => "complement(" ++ print l ++ ")"
-def printList : List Loc → String
-  | [] => ""
-  | [l] => print l
-  | l :: ls => print l ++ "," ++ printList ls
+      (if p5 then [60] else []) ++ dec (s + 1) ++ 46 :: 46 :: ((if p3 then [62] else []) ++ dec e)
+  | ambiguous s e => dec (s + 1) ++ 46 :: dec e
+  | joined ls => str "join(" ++ (printListB ls ++ [41])
+  | ordered ls => str "order(" ++ (printListB ls ++ [41])
+  | compl l => str "complement(" ++ (printB l ++ [41])
+/-- `strings.Join(parts, ",")` -/
+def printListB : List Loc → Bytes
+  | [] => []
+  | l :: ls => printB l ++ printTailB ls
+/-- every further part, each preceded by its `,` -/
+def printTailB : List Loc → Bytes
+  | [] => []
+  | l :: ls => 44 :: (printB l ++ printTailB ls)
 end
 
 end Loc
